@@ -9,6 +9,9 @@
 //!   B       Byron addresses used by the case with the byte length of their attributes
 //!   I / L   history of the TxInputsBuilder given to set_inputs / set_collateral
 //!   inop    k o key | rk o key | b o baddr | rb o baddr | n o <nsrc> | p o <pwit> | s key
+//!           | ku o key <sref> | bu o baddr <sref> | nu o <nsrc> <sref> | pu o <pwit> <sref>     sref = ~ | script id
+//!           (the same input given as a UTxO: add_regular_utxo / add_native_script_utxo / add_plutus_script_utxo; the output sits
+//!            at the matching enterprise / Byron address and carries the reference script sref)
 //!           (k/b: add_key_input / add_bootstrap_input, rk/rb: add_regular_input on an enterprise / Byron address,
 //!            n: add_native_script_input, p: add_plutus_script_input, s: add_required_signer)
 //!   nsrc    i sid nk key* <decl>  |  r oref sid <decl>          decl = ~ | n key*
@@ -19,6 +22,7 @@
 //!   wdop    cred <wit>         voteop  vkind cred <wit>     (vkind 0 committee hot, 1 DRep, 2 stake pool)
 //!   propop  pid scripted(0|1) <wit>       mintop  N <nsrc> | P <psrc> red
 //!   S explicit required signers, R explicit reference inputs, D extra witness datums.
+//!   datum ids 0..9 = the integer, minimal encoding; 10+v = the integer v encoded non-minimally (another datum: other bytes, other hash).
 //! Native script ids are < 1000, Plutus script ids >= 1000 (language = id mod 3; ids 1000+3b .. 1002+3b have the SAME BYTES:
 //! one compiled script under three language versions = three scripts with three hashes).  Everything the witness code
 //! does not look at (amounts, pool parameters, anchors ...) is a fixed function of the ids and positions.
@@ -45,7 +49,11 @@ struct PWit { script: PSrc, datum: Dat, red: u64 }
 #[derive(Clone, Debug)]
 enum Wit { None, Native(NSrc), Plutus(PWit) }
 #[derive(Clone, Debug)]
-enum InOp { Key(u64, u64, bool), Byron(u64, u64, bool), Native(u64, NSrc), Plutus(u64, PWit), Signer(u64) }
+enum InOp { Key(u64, u64, bool), Byron(u64, u64, bool), Native(u64, NSrc), Plutus(u64, PWit), Signer(u64),
+            /// the same input given as a UTxO (add_regular_utxo / add_native_script_utxo / add_plutus_script_utxo) whose output
+            /// carries the reference script with the given id (or none)
+            Utxo(Box<InOp>, Option<u64>) }
+fn base(op: &InOp) -> &InOp { match op { InOp::Utxo(b, _) => b, _ => op } }
 #[derive(Clone, Debug, PartialEq)]
 enum Cred { K(u64), S(u64) }
 #[derive(Clone, Debug)]
@@ -89,6 +97,11 @@ fn inop_s(op: &InOp) -> String {
         InOp::Native(o, n) => format!("n {} {}", o, nsrc_s(n)),
         InOp::Plutus(o, p) => format!("p {} {}", o, pwit_s(p)),
         InOp::Signer(k) => format!("s {}", k),
+        InOp::Utxo(b, r) => {
+            let t = inop_s(b);
+            let (head, rest) = t.split_once(' ').unwrap();
+            format!("{}u {} {}", head.trim_start_matches('r'), rest, match r { Some(x) => x.to_string(), None => "~".into() })
+        }
     }
 }
 fn case_line(c: &Case) -> String {
@@ -119,6 +132,7 @@ struct P<'a> { t: &'a [String], i: usize }
 impl<'a> P<'a> {
     fn next(&mut self) -> &'a str { let s = &self.t[self.i]; self.i += 1; s.as_str() }
     fn num(&mut self) -> u64 { self.next().parse().expect("number in case") }
+    fn optnum(&mut self) -> Option<u64> { let s = self.next(); if s == "~" { None } else { Some(s.parse().expect("number in case")) } }
     fn expect(&mut self, s: &str) { assert_eq!(self.next(), s, "case syntax"); }
     fn list(&mut self) -> Vec<u64> { let n = self.num(); (0..n).map(|_| self.num()).collect() }
     fn decl(&mut self) -> Option<Vec<u64>> {
@@ -162,6 +176,10 @@ impl<'a> P<'a> {
             "n" => { let o = self.num(); InOp::Native(o, self.nsrc()) }
             "p" => { let o = self.num(); InOp::Plutus(o, self.pwit()) }
             "s" => InOp::Signer(self.num()),
+            "ku" => { let o = self.num(); let b = InOp::Key(o, self.num(), false); InOp::Utxo(Box::new(b), self.optnum()) }
+            "bu" => { let o = self.num(); let b = InOp::Byron(o, self.num(), false); InOp::Utxo(Box::new(b), self.optnum()) }
+            "nu" => { let o = self.num(); let b = InOp::Native(o, self.nsrc()); InOp::Utxo(Box::new(b), self.optnum()) }
+            "pu" => { let o = self.num(); let b = InOp::Plutus(o, self.pwit()); InOp::Utxo(Box::new(b), self.optnum()) }
             x => panic!("inop {}", x),
         }).collect()
     }
@@ -210,7 +228,16 @@ fn oref_id(i: &TransactionInput) -> u64 {
     let h = i.transaction_id().to_bytes();
     ((u32::from_be_bytes([h[28], h[29], h[30], h[31]]) as u64) << 2) | (i.index() as u64)
 }
-fn datum(d: u64) -> PlutusData { PlutusData::new_integer(&BigInt::from_str(&d.to_string()).unwrap()) }
+/// datum ids 0..9: the integer in its minimal encoding; ids 10+v: the SAME integer v written non-minimally (0x18 v), read from
+/// the wire with its bytes preserved: equal as values, different bytes, different datum hashes -> two datums
+fn datum(d: u64) -> PlutusData {
+    if d >= 10 { PlutusData::from_bytes(vec![0x18, (d - 10) as u8]).unwrap() }
+    else { PlutusData::new_integer(&BigInt::from_str(&d.to_string()).unwrap()) }
+}
+fn datum_id(p: &PlutusData) -> u64 {
+    let b = p.to_bytes();
+    if b.len() == 1 && b[0] < 24 { b[0] as u64 } else if b.len() == 2 && b[0] == 0x18 { 10 + b[1] as u64 } else { 9999 }
+}
 fn redeemer(r: u64) -> Redeemer {
     Redeemer::new(&RedeemerTag::new_spend(), &BigNum::from(0u64), &datum(r), &ExUnits::new(&BigNum::from(r), &BigNum::from(r + 1)))
 }
@@ -222,7 +249,7 @@ impl World {
     fn note_w(&mut self, w: &Wit) { if let Wit::Native(n) = w { self.note_n(n) } }
     fn new(c: &Case) -> World {
         let mut w = World { native_keys: BTreeMap::new() };
-        for op in c.inputs.iter().chain(c.collateral.iter()) { if let InOp::Native(_, n) = op { w.note_n(n) } }
+        for op in c.inputs.iter().chain(c.collateral.iter()) { if let InOp::Native(_, n) = base(op) { w.note_n(n) } }
         for op in &c.certs { w.note_w(&op.wit) }
         for (_, x) in &c.wdrl { w.note_w(x) }
         for (_, _, x) in &c.votes { w.note_w(x) }
@@ -354,6 +381,26 @@ fn add_inops(w: &World, b: &mut TxInputsBuilder, ops: &[InOp]) {
             InOp::Native(o, n) => b.add_native_script_input(&w.nsrc(n), &oref(*o), &value(i)),
             InOp::Plutus(o, p) => b.add_plutus_script_input(&w.pwit(p), &oref(*o), &value(i)),
             InOp::Signer(k) => b.add_required_signer(&kh(*k)),
+            InOp::Utxo(bx, sref) => {
+                let script_addr = |h: &ScriptHash| EnterpriseAddress::new(0, &Credential::from_scripthash(h)).to_address();
+                let (o, addr) = match &**bx {
+                    InOp::Key(o, k, _) => (*o, EnterpriseAddress::new(0, &Credential::from_keyhash(&kh(*k))).to_address()),
+                    InOp::Byron(o, a, _) => (*o, byron(*a).to_address()),
+                    InOp::Native(o, n) => (*o, script_addr(&w.script_hash(match n { NSrc::Inline(s, ..) => *s, NSrc::Ref(_, s, _) => *s }))),
+                    InOp::Plutus(o, p) => (*o, script_addr(&w.script_hash(match &p.script { PSrc::Inline(s, _) => *s, PSrc::Ref(_, s, _) => *s }))),
+                    _ => panic!("utxo form of a signer"),
+                };
+                let mut out = TransactionOutput::new(&addr, &value(i));
+                if let Some(s) = sref {
+                    out.set_script_ref(&if *s < 1000 { ScriptRef::new_native_script(&w.native_script(*s, None)) } else { ScriptRef::new_plutus_script(&w.plutus_script(*s)) });
+                }
+                let utxo = TransactionUnspentOutput::new(&oref(o), &out);
+                match &**bx {
+                    InOp::Native(_, n) => b.add_native_script_utxo(&utxo, &w.nsrc(n)).unwrap(),
+                    InOp::Plutus(_, p) => b.add_plutus_script_utxo(&utxo, &w.pwit(p)).unwrap(),
+                    _ => b.add_regular_utxo(&utxo).unwrap(),
+                }
+            }
         }
     }
 }
@@ -370,9 +417,11 @@ fn input_signers(ops: &[InOp], keys: &mut BTreeSet<u64>, boots: &mut BTreeSet<u6
     // the owner of an outpoint is the one of the last call that added it
     let mut last: BTreeMap<u64, &InOp> = BTreeMap::new();
     for op in ops {
+        let op = base(op);
         match op {
             InOp::Key(o, ..) | InOp::Byron(o, ..) | InOp::Native(o, _) | InOp::Plutus(o, _) => { last.insert(*o, op); }
             InOp::Signer(k) => { keys.insert(*k); }
+            InOp::Utxo(..) => unreachable!(),
         }
     }
     for op in last.values() {
@@ -381,7 +430,7 @@ fn input_signers(ops: &[InOp], keys: &mut BTreeSet<u64>, boots: &mut BTreeSet<u6
             InOp::Byron(_, a, _) => { boots.insert(*a); }
             InOp::Native(_, n) => keys.extend(nsrc_signers(n)),
             InOp::Plutus(_, p) => keys.extend(psrc_signers(&p.script)),
-            InOp::Signer(_) => {}
+            InOp::Signer(_) | InOp::Utxo(..) => {}
         }
     }
 }
@@ -558,7 +607,7 @@ fn run_case(c: &Case) -> String {
     let wset = tx.witness_set();
     let mut ns = vec![]; if let Some(v) = wset.native_scripts() { for i in 0..v.len() { ns.push(*native_ids.get(&v.get(i).to_bytes()).unwrap_or(&9999)); } }
     let mut ps = vec![]; if let Some(v) = wset.plutus_scripts() { for i in 0..v.len() { { let p = v.get(i); ps.push(*plutus_ids.get(&(p.bytes(), lang_no(&p))).unwrap_or(&9999)); } } }
-    let mut dat = vec![]; if let Some(v) = wset.plutus_data() { for i in 0..v.len() { dat.push(v.get(i).as_integer().map(|b| b.to_str().parse::<u64>().unwrap_or(9999)).unwrap_or(9999)); } }
+    let mut dat = vec![]; if let Some(v) = wset.plutus_data() { for i in 0..v.len() { dat.push(datum_id(&v.get(i))); } }
     let mut red: Vec<(u64, u64)> = vec![];
     if let Some(v) = wset.redeemers() {
         for i in 0..v.len() {
@@ -586,6 +635,7 @@ fn run_case(c: &Case) -> String {
 struct G { r: Rng, nkeys: u64, native: Vec<(u64, Vec<u64>)>, plutus: Vec<u64>, norefs: u64 }
 impl G {
     fn key(&mut self) -> u64 { self.r.below(self.nkeys) }
+    fn datum(&mut self) -> u64 { let v = self.r.below(4); if self.r.chance(1, 3) { 10 + v } else { v } }
     fn keys(&mut self, max: u64) -> Vec<u64> { let n = self.r.below(max + 1); (0..n).map(|_| self.key()).collect() }
     fn decl(&mut self) -> Option<Vec<u64>> { if self.r.chance(1, 2) { None } else { Some(self.keys(3)) } }
     fn refo(&mut self) -> u64 { if self.r.chance(1, 8) { self.r.below(self.norefs) } else { 100 + self.r.below(6) } }
@@ -603,7 +653,7 @@ impl G {
     }
     fn pwit(&mut self, mixed: bool, with_datum: bool) -> PWit {
         let script = self.psrc(mixed);
-        let datum = if !with_datum { Dat::None } else { match self.r.below(3) { 0 => Dat::None, 1 => Dat::Inline(self.r.below(4)), _ => Dat::Ref(self.refo()) } };
+        let datum = if !with_datum { Dat::None } else { match self.r.below(3) { 0 => Dat::None, 1 => Dat::Inline(self.datum()), _ => Dat::Ref(self.refo()) } };
         PWit { script, datum, red: self.r.below(3) }
     }
     /// a witness for an item locked by script `s` (matching unless `wrong`)
@@ -620,7 +670,7 @@ impl G {
             let d = self.decl();
             let script = if inline { PSrc::Inline(s, d) } else { PSrc::Ref(110 + (s % 100), s, d) };
             // a datum source is meaningless for these purposes on chain, but the API admits it and the builder collects it
-            let datum = match self.r.below(6) { 0 => Dat::Inline(self.r.below(4)), 1 => Dat::Ref(self.refo()), _ => Dat::None };
+            let datum = match self.r.below(6) { 0 => Dat::Inline(self.datum()), 1 => Dat::Ref(self.refo()), _ => Dat::None };
             Wit::Plutus(PWit { script, datum, red: self.r.below(3) })
         }
     }
@@ -651,10 +701,16 @@ impl G {
                     (Some(InOp::Native(_, n)), _) => { let (s, ks, r) = match n { NSrc::Inline(s, ks, _) => (*s, ks.clone(), None), NSrc::Ref(r, s, _) => (*s, vec![], Some(*r)) };
                         InOp::Native(o, match r { None => NSrc::Inline(s, ks, self.decl()), Some(r) => NSrc::Ref(r, s, self.decl()) }) }
                     (Some(InOp::Plutus(_, p)), _) => { let mut p2 = p.clone(); p2.red = self.r.below(3); p2.script = match &p.script { PSrc::Inline(s, _) => PSrc::Inline(*s, self.decl()), PSrc::Ref(r, s, _) => PSrc::Ref(*r, *s, self.decl()) }; InOp::Plutus(o, p2) }
-                    (Some(InOp::Signer(_)), _) => op,
+                    (Some(InOp::Signer(_)), _) | (Some(InOp::Utxo(..)), _) => op,
                 }
             } else { op };
             owners.insert(o, op.clone());
+            // a third of the inputs come as UTxOs, most of them carrying some (unrelated or related) reference script
+            let op = if self.r.chance(1, 3) {
+                let sref = if self.r.chance(3, 4) { Some(self.script_id()) } else { None };
+                let b = match op { InOp::Key(o, k, _) => InOp::Key(o, k, false), InOp::Byron(o, a, _) => InOp::Byron(o, a, false), x => x };
+                InOp::Utxo(Box::new(b), sref)
+            } else { op };
             ops.push(op);
         }
         ops
@@ -685,7 +741,7 @@ fn new_gen(r: &mut Rng, nkeys: u64) -> G {
 fn finish(mut c: Case) -> Case {
     // table of the Byron addresses the case uses
     let mut used: BTreeSet<u64> = BTreeSet::new();
-    for op in c.inputs.iter().chain(c.collateral.iter()) { if let InOp::Byron(_, a, _) = op { used.insert(*a); } }
+    for op in c.inputs.iter().chain(c.collateral.iter()) { if let InOp::Byron(_, a, _) = base(op) { used.insert(*a); } }
     c.attrs = used.into_iter().map(|a| (a, byron(a).attributes().len() as u64)).collect();
     c
 }
@@ -722,7 +778,7 @@ fn gen_mix(r: &mut Rng, label: &str, nkeys: u64, size: u64, readd: u8, mixed: bo
     }
     c.signers = g.keys(3);
     for _ in 0..g.r.below(3) { let o = g.refo(); c.refs.push(o); }
-    for _ in 0..g.r.below(3) { c.datums.push(g.r.below(4)); }
+    for _ in 0..g.r.below(3) { let d = g.datum(); c.datums.push(d); }
     finish(c)
 }
 
